@@ -919,10 +919,10 @@ func vfC07DrawClients(t *rapid.T) (c vfC07Clients) {
 		c  *Client
 	}{
 		{"192.0.2.1", &Client{Name: "Laptop"}},
-		{"2001:db8::1", &Client{Name: "ads phone", WHOIS: &whois.Info{Country: "AQ", Orgname: "Example <Org> & Co"}}},
+		{"2001:db8::1", &Client{Name: "ads phone Kitchen", WHOIS: &whois.Info{Country: "AQ", Orgname: "Example <Org> & Co"}}},
 		{"cli123", &Client{Name: "Küche"}},
 		{"phone", &Client{Name: "cli", Disallowed: true, DisallowedRule: "192.0.2.0/24"}},
-		{"10.1.2.3", &Client{Name: "192 office"}},
+		{"10.1.2.3", &Client{Name: "192 office Samsung"}},
 		{"198.51.100.23", &Client{Name: ""}},
 		{"ads-box", &Client{Name: "tracker.com"}},
 	}
@@ -1002,7 +1002,10 @@ func vfC07DrawTerm(t *rapid.T, label string, recs []*vfC07Rec, clients vfC07Clie
 		if cl := clients.of(r); cl != nil && cl.Name != "" {
 			name = cl.Name
 		}
-		if rapid.Bool().Draw(t, label+"_nameexact") {
+		if words := strings.Fields(name); len(words) > 1 && rapid.IntRange(0, 2).Draw(t, label+"_nameword") == 0 {
+			// a whole word of the name, typed in lower case
+			f = vfC07Filter{Kind: "clientname_word", Term: strings.ToLower(words[rapid.IntRange(1, len(words)-1).Draw(t, label+"_word")])}
+		} else if rapid.Bool().Draw(t, label+"_nameexact") {
 			f = vfC07Filter{Kind: "clientname_exact", Term: `"` + mix(name) + `"`}
 		} else {
 			f = vfC07Filter{Kind: "clientname_substring", Term: mix(sub(name, label+"_n"))}
